@@ -404,7 +404,7 @@ def build_arg(a):
         raise ValueError(form)
     _, ver, lo, hi, form = a
     if form == 'range':
-        return netaddr.IPRange(netaddr.IPAddress(lo, ver), netaddr.IPAddress(hi, ver))
+        return common.make_range(ver, lo, hi)
     if form == 'glob*':
         return netaddr.IPGlob('%d.%d.%d.*' % (lo >> 24, (lo >> 16) & 255, (lo >> 8) & 255))
     if form == 'globxy':
@@ -492,19 +492,27 @@ def run_impl(ops, raw=False):
                     sets[i] = IPSet()
                 elif op[2] in ('net', 'rng'):
                     x = build_arg(op[3])
+                    x0 = x
                     if not isinstance(x, (IPNetwork, netaddr.IPRange)):
                         x = [x]               # the constructor takes a network/range/set object or an iterable
                     sets[i] = IPSet(x)
+                    common.disturb(x0)         # the caller's object is the caller's: moving it must not move the set
                 elif op[2] == 'set':
                     sets[i] = IPSet(sets[op[3]])
                 else:
-                    sets[i] = IPSet([build_arg(a) for a in op[3]])
+                    xs = [build_arg(a) for a in op[3]]
+                    sets[i] = IPSet(xs if len(xs) % 2 else iter(xs))       # containers and one-shot iterators alike
+                    common.disturb(*xs)
                 touched = i
             elif k == 'add':
-                sets[op[1]].add(build_arg(op[2]))
+                x = build_arg(op[2])
+                sets[op[1]].add(x)
+                common.disturb(x)
                 touched = op[1]
             elif k == 'rem':
-                sets[op[1]].remove(build_arg(op[2]))
+                x = build_arg(op[2])
+                sets[op[1]].remove(x)
+                common.disturb(x)
                 touched = op[1]
             elif k == 'upd':
                 i = op[1]
@@ -512,11 +520,15 @@ def run_impl(ops, raw=False):
                     sets[i].update(sets[op[3]])
                 elif op[2] == 'arg':
                     x = build_arg(op[3])
+                    x0 = x
                     if not isinstance(x, (IPNetwork, netaddr.IPRange)):
                         x = [x]               # update() takes an iterable or a network/range object
                     sets[i].update(x)
+                    common.disturb(x0)
                 else:
-                    sets[i].update([build_arg(a) for a in op[3]])
+                    xs = [build_arg(a) for a in op[3]]
+                    sets[i].update(xs if len(xs) % 2 else (y for y in xs))
+                    common.disturb(*xs)
                 touched = i
             elif k == 'clear':
                 sets[op[1]].clear()
